@@ -11,7 +11,7 @@ Two printing styles:
 """
 import macrolang as ML
 
-PRIMS = ['bgroup', 'egroup', 'def', 'gdef', 'relax', 'else', 'fi', 'iftrue', 'iffalse', 'ifnum', 'ifcase', 'newcommand', 'renewcommand', 'let', 'ifodd', 'newif', 'value', 'stepcounter', 'setcounter', 'addtocounter']
+PRIMS = ['bgroup', 'egroup', 'def', 'gdef', 'relax', 'else', 'fi', 'iftrue', 'iffalse', 'ifnum', 'ifcase', 'newcommand', 'renewcommand', 'let', 'ifodd', 'newif', 'value', 'stepcounter', 'setcounter', 'addtocounter', 'expandafter']
 
 
 # ---- names of Spec/MacroPrint.v -------------------------------------------------------------------
@@ -149,6 +149,8 @@ class Pr:
             return '##%d' % n[1]
         if k == 'hash':
             return '##'
+        if k == 'expandafter':
+            return '\\expandafter\\%s\\%s ' % (self.mac(n[1]), self.mac(n[2]))
         if k == 'cond':
             s = self.test(n[1]) + self.nodes(n[2])
             if n[3] is not None:
@@ -171,7 +173,7 @@ def to_source(prog, style):
 DELIMS = ['.', ',', ';', ':']
 
 
-def gen_prog(rng, f1_only=False, max_params=3, delims=True, allow_nested=True, newcommands=True, lets=True, switches=True, counters=True):
+def gen_prog(rng, f1_only=False, max_params=3, delims=True, allow_nested=True, newcommands=True, lets=True, switches=True, counters=True, expandafters=True):
     """a program of the fragment; f1_only: no parameters at all (fragment F1 of the theorem); otherwise undelimited
     (and a few delimited) parameters.  Bodies call only lower-numbered macros, so expansion terminates."""
     nmac = rng.randint(1, 4)
@@ -195,6 +197,8 @@ def gen_prog(rng, f1_only=False, max_params=3, delims=True, allow_nested=True, n
     w = [0]
     nested = allow_nested and rng.random() < 0.5     # a program uses either literal ## or definitions nested in bodies, never both
     inner_ids = [0]
+    feeder_ids = [0]
+    vinner = {}            # parameterless macro id -> (inner id, number of parameters) it defines when called
     alias_ids = [0]
     scopes = [set()]       # ids certainly defined at this point, per open group (static approximation)
 
@@ -294,6 +298,24 @@ def gen_prog(rng, f1_only=False, max_params=3, delims=True, allow_nested=True, n
     def body(i):
         np, how = sigs[i]
         np = np + (1 if how.get('opt') else 0)
+        if np == 0 and how.get('kind') == 'def' and not f1_only and nested and rng.random() < 0.5:
+            # a parameterless \\def whose body is words and a \\def with ##k: the body is handed back as it is and \\def itself
+            # removes one level of # (DefCommand); the inner macro is used right after a call of the outer one (see main)
+            inner = 30 + inner_ids[0]
+            inner_ids[0] += 1
+            inp = rng.randint(1, 2)
+            ib = []
+            for _ in range(rng.randint(1, 3)):
+                r = rng.random()
+                if r < 0.55:
+                    ib.append(['param2', rng.randint(1, inp)])
+                elif r < 0.7:
+                    ib.append(['group', [['param2', rng.randint(1, inp)], word()], 'brace'])
+                else:
+                    ib.append(word())
+            vinner[i] = (inner, inp)
+            return [word() for _ in range(rng.randint(0, 1))] + [['def', False, inner, inp, None, ib, {'kind': 'def'}]] + [word() for _ in range(rng.randint(0, 1))]
+        vinner.pop(i, None)
         b = content(2, np, list(range(i)), n=rng.randint(0, 4), allow_def=False)
         if not f1_only and nested and rng.random() < 0.4:
             # a definition nested in the body: its own parameters are written ##k there (DefCommand removes one level of #)
@@ -309,9 +331,18 @@ def gen_prog(rng, f1_only=False, max_params=3, delims=True, allow_nested=True, n
                     ib.append(['param', rng.randint(1, np)])
                 else:
                     ib.append(word())
-            b.append(['def', False, inner, inp, None, ib, {'kind': 'def'}])
-            for _ in range(rng.randint(1, 2)):
-                b.append(['call', inner, None, [[word() for _ in range(rng.randint(0, 2))] for _ in range(inp)], {'kind': 'def'}])
+            if np and newcommands and rng.random() < 0.35:
+                # the nested definition is a \\newcommand with an optional argument (global): ##1 is the optional one.
+                # (only inside a macro that has parameters: inside a parameterless \\def plasTeX leaves ##k as #k - reported finding)
+                ib.append(['param2', rng.randint(1, inp + 1)])
+                b.append(['def', True, inner, inp, [word() for _ in range(rng.randint(0, 2))], ib, {'kind': 'newcommand', 'opt': True}])
+                for _ in range(rng.randint(1, 2)):
+                    b.append(['call', inner, ([word() for _ in range(rng.randint(0, 2))] if rng.random() < 0.5 else None),
+                              [[word() for _ in range(rng.randint(0, 2))] for _ in range(inp)], {'kind': 'newcommand', 'opt': True}])
+            else:
+                b.append(['def', False, inner, inp, None, ib, {'kind': 'def'}])
+                for _ in range(rng.randint(1, 2)):
+                    b.append(['call', inner, None, [[word() for _ in range(rng.randint(0, 2))] for _ in range(inp)], {'kind': 'def'}])
         if f1_only and i and rng.random() < 0.25:
             # a definition inside a body (no parameters anywhere: legal in F1), executed when the macro is called
             j = rng.randrange(i)
@@ -343,8 +374,24 @@ def gen_prog(rng, f1_only=False, max_params=3, delims=True, allow_nested=True, n
                 scopes[-1].add(new)
                 for _ in range(rng.randint(0, 2)):
                     out.append(call([new], 2, 0, False))
+            elif r < 0.66 and not f1_only and expandafters and [i for i in visible() if i < nmac and sigs[i][1].get('kind') == 'def' and not sigs[i][1].get('delims')]:
+                # \\expandafter\\a\\b: \\b (a fresh parameterless \\def) is expanded first; its body starts with one brace group per
+                # parameter of \\a (plain \\def without delimiters), sometimes one too few (then \\a takes what follows)
+                a = rng.choice([i for i in visible() if i < nmac and sigs[i][1].get('kind') == 'def' and not sigs[i][1].get('delims')])
+                fid = 40 + feeder_ids[0]
+                feeder_ids[0] += 1
+                npa = sigs[a][0]
+                fb = [['group', [word() for _ in range(rng.randint(0, 2))], 'brace'] for _ in range(npa)] + [word() for _ in range(rng.randint(0 if npa else 1, 2))]
+                out.append(['def', False, fid, 0, None, fb, {'kind': 'def'}])
+                out.append(['expandafter', a, fid])
             else:
-                out += content(2, 0, visible(), n=1)
+                new = content(2, 0, visible(), n=1)
+                out += new
+                for x in new:
+                    # after a call of a parameterless macro that defines an inner macro (##k reduced by \\def): use the inner macro
+                    if x[0] == 'call' and x[1] in vinner and rng.random() < 0.8:
+                        inner, inp = vinner[x[1]]
+                        out.append(['call', inner, None, [[word() for _ in range(rng.randint(0, 2))] for _ in range(inp)], {'kind': 'def'}])
         return out
     prog = []
     for k in range(nsw):
@@ -444,12 +491,15 @@ def _fa(n):
 
 
 def _fb(np, n, d):
-    """Spec/MacroPrint.fb_node: body of a macro with np parameters, nesting depth at most d"""
+    """Spec/MacroPrint.fb_node: body of a macro with np parameters; a parameter sits at nesting depth at most d (argument text,
+    which has no parameter, may sit at any depth)"""
     k = n[0]
     if k in ('word', 'let', 'newsw', 'setsw', 'step', 'setc', 'addc'):
         return True
     if k == 'param':
         return 1 <= n[1] <= np
+    if k in ('group', 'def', 'call', 'cond', 'case') and _fa(n):
+        return True
     if k == 'group':
         return d > 0 and all(_fb(np, x, d - 1) for x in n[1])
     if k == 'def':
@@ -463,16 +513,67 @@ def _fb(np, n, d):
     return False
 
 
-def _f2(n):
+def _fi(np, m, n, d):
+    """Spec/MacroPrint.fi_node: body of a definition with m parameters (##k) written inside the body of a macro with np parameters (#k)"""
     k = n[0]
     if k in ('word', 'let', 'newsw', 'setsw', 'step', 'setc', 'addc'):
+        return True
+    if k == 'param':
+        return 1 <= n[1] <= np
+    if k == 'param2':
+        return 1 <= n[1] <= m
+    if k == 'group':
+        return d > 0 and all(_fi(np, m, x, d - 1) for x in n[1])
+    if k == 'call':
+        return _opt_ok(n[2]) and all(d > 0 and all(_fi(np, m, x, d - 1) for x in a) for a in n[3])
+    if k == 'cond':
+        return _test_ok(n[1]) and d > 0 and all(_fi(np, m, x, d - 1) for x in n[2]) and (n[3] is None or all(_fi(np, m, x, d - 1) for x in n[3]))
+    if k == 'case':
+        return _case_head(n) and d > 0 and all(all(_fi(np, m, x, d - 1) for x in b) for b in n[2]) and (n[3] is None or all(_fi(np, m, x, d - 1) for x in n[3]))
+    return False
+
+
+def _fb3(np, n, d):
+    """Spec/MacroPrint.fb3_node: fb_node, or a definition with parameters of its own (nested definition) directly in the body (also under
+    groups and branches, not in call arguments) of a macro that has parameters itself"""
+    if _fb(np, n, d):
+        return True
+    k = n[0]
+    if k == 'group':
+        return d > 0 and all(_fb3(np, x, d - 1) for x in n[1])
+    if k == 'def':
+        if not (np >= 1 and d > 0):
+            return False
+        if n[4] is None:
+            return 1 <= n[3] <= 9 and all(_fi(np, n[3], x, d - 1) for x in n[5])
+        return bool(n[1]) and n[3] + 1 <= 9 and _words(n[4]) and all(_fi(np, n[3] + 1, x, d - 1) for x in n[5])
+    if k == 'cond':
+        return _test_ok(n[1]) and d > 0 and all(_fb3(np, x, d - 1) for x in n[2]) and (n[3] is None or all(_fb3(np, x, d - 1) for x in n[3]))
+    if k == 'case':
+        return _case_head(n) and d > 0 and all(all(_fb3(np, x, d - 1) for x in b) for b in n[2]) and (n[3] is None or all(_fb3(np, x, d - 1) for x in n[3]))
+    return False
+
+
+def _fv(n):
+    """Spec/MacroPrint.fv_node: in the body of a parameterless \\def (handed back as it is): words and \\def's with ##k"""
+    if n[0] == 'word':
+        return True
+    if n[0] == 'def' and n[4] is None:
+        return 1 <= n[3] <= 9 and all(_fi(0, n[3], x, 49) for x in n[5])
+    return False
+
+
+def _f2(n):
+    k = n[0]
+    if k in ('word', 'let', 'newsw', 'setsw', 'step', 'setc', 'addc', 'expandafter'):
         return True
     if k == 'group':
         return all(_f2(x) for x in n[1])
     if k == 'def':
         if n[4] is not None:
-            return bool(n[1]) and n[3] + 1 <= 9 and _words(n[4]) and all(_fb(n[3] + 1, x, 49) for x in n[5])
-        return n[3] <= 9 and (all(_fb(n[3], x, 49) for x in n[5]) or (n[3] == 0 and all(_fa(x) for x in n[5])))
+            return bool(n[1]) and n[3] + 1 <= 9 and _words(n[4]) and all(_fb3(n[3] + 1, x, 49) for x in n[5])
+        return n[3] <= 9 and ((n[3] >= 1 and all(_fb3(n[3], x, 49) for x in n[5])) or
+                              (n[3] == 0 and (all(_fa(x) for x in n[5]) or all(_fv(x) for x in n[5]))))
     if k == 'call':
         return _opt_ok(n[2]) and all(all(_fa(x) for x in a) for a in n[3])
     if k == 'cond':
@@ -482,9 +583,43 @@ def _f2(n):
     return False
 
 
+def has_expandafter(prog):
+    return any(x[0] == 'expandafter' or (x[0] == 'group' and has_expandafter(x[1])) or
+               (x[0] == 'cond' and (has_expandafter(x[2]) or (x[3] is not None and has_expandafter(x[3])))) for x in prog)
+
+
+def has_nested_def(prog):
+    """a definition with parameters of its own inside the body of a definition"""
+    def inside(l, inbody):
+        for n in l:
+            k = n[0]
+            if k == 'def':
+                if inbody and (n[3] > 0 or n[4] is not None):
+                    return True
+                if inside(n[5], True):
+                    return True
+            elif k == 'group':
+                if inside(n[1], inbody):
+                    return True
+            elif k == 'call':
+                if any(inside(a, inbody) for a in n[3]):
+                    return True
+            elif k == 'cond':
+                if inside(n[2], inbody) or (n[3] is not None and inside(n[3], inbody)):
+                    return True
+            elif k == 'case':
+                if any(inside(b, inbody) for b in n[2]) or (n[3] is not None and inside(n[3], inbody)):
+                    return True
+        return False
+    return inside(prog, False)
+
+
 def in_f2(prog):
-    """Spec/MacroPrint.in_F2 on the Python side"""
+    """Spec/MacroPrint.in_F2 (= in_F3: since stage 4 the fragment includes nested definitions with ##k) on the Python side"""
     return all(_f2(n) for n in prog)
+
+
+in_f3 = in_f2
 
 
 # ---- malformed stream: raw token lists -------------------------------------------------------------
@@ -496,7 +631,7 @@ def T(c, s):
 SOUP = [T(11, 'a'), T(11, 'b'), T(10, ' '), T(1, '{'), T(2, '}'), T(6, '#'), T(12, '1'), T(12, '2'), T(12, '<'), T(12, '='), T(12, '>'),
         T(12, '-'), T(12, '+'), T(0, 'def'), T(0, 'gdef'), T(0, 'zqa'), T(0, 'zqb'), T(0, 'iftrue'), T(0, 'iffalse'), T(0, 'ifnum'),
         T(0, 'else'), T(0, 'fi'), T(0, 'relax'), T(0, 'ifcase'), T(0, 'or'), T(0, 'newcommand'), T(12, '['), T(12, ']'), T(12, '*'), T(0, 'let'), T(0, 'let'), T(0, 'ifodd'), T(0, 'newif'), T(0, 'newif'), T(0, 'ifzsa'), T(0, 'zsatrue'), T(0, 'zsafalse'), T(0, 'ifzsa'),
-        T(0, 'value'), T(0, 'stepcounter'), T(0, 'setcounter'), T(0, 'addtocounter'), T(11, 'c')]
+        T(0, 'value'), T(0, 'stepcounter'), T(0, 'setcounter'), T(0, 'addtocounter'), T(11, 'c'), T(0, 'expandafter'), T(0, 'expandafter')]
 SMALL = [T(11, 'a'), T(10, ' '), T(1, '{'), T(2, '}'), T(6, '#'), T(12, '1'), T(12, '<'), T(0, 'def'), T(0, 'zqa'), T(0, 'iftrue'),
          T(0, 'ifnum'), T(0, 'else'), T(0, 'fi'), T(0, 'relax')]
 
